@@ -4,7 +4,7 @@ read-only monitor can also observe discrete inputs/outputs.
   dsrc  (IndepVarComp)        discrete outputs  k (int), tag (str)
   dmid  (ExplicitComponent)   x (continuous, fed by a state of the G-model), discrete input k
                               y = k*x + 0.1 sin x ; discrete outputs kk = 2k+1 ,
-                              regime = floor(1e7*sum(x)) mod 5   (a discrete "regime flag" that depends on the
+                              regime = floor(1e7*sum(x)) mod 7   (a discrete "regime flag" that depends on the
                               continuous input - it moves whenever the component is evaluated at a perturbed point)
   dsink (ExplicitComponent)   z = kk*y + regime  (discrete inputs kk, regime, tag)
 
@@ -34,7 +34,7 @@ class DMid(om.ExplicitComponent):
         x = inputs['x']
         outputs['y'] = k * x + 0.1 * np.sin(x)
         discrete_outputs['kk'] = 2 * k + 1
-        discrete_outputs['regime'] = int(np.floor(float(np.sum(np.real(x))) * 1e7)) % 5
+        discrete_outputs['regime'] = int(np.floor(float(np.sum(np.real(x))) * 1e7)) % 7
 
     def compute_partials(self, inputs, partials, discrete_inputs):
         partials['y', 'x'] = discrete_inputs['k'] + 0.1 * np.cos(inputs['x'])
@@ -82,21 +82,23 @@ def attach_discrete(prob, src_prom_name, n):
 
 def discrete_snapshot(model):
     """{abs name: value} of every discrete input and output in the model (values are immutable here)."""
+    from openmdao.core.component import Component
     out = {}
-    for s in model.system_iter(include_self=True, recurse=True):
+    for s in model.system_iter(typ=Component, recurse=True):
         for kind in ('_discrete_inputs', '_discrete_outputs'):
             d = getattr(s, kind, None)
-            if d and not hasattr(s, '_subsystems_allprocs'):
+            if d:
                 for k in d:
                     out['%s:%s.%s' % (kind[10:], s.pathname, k)] = d[k]
     return out
 
 
 def discrete_restore(model, snap):
-    for s in model.system_iter(include_self=True, recurse=True):
+    from openmdao.core.component import Component
+    for s in model.system_iter(typ=Component, recurse=True):
         for kind in ('_discrete_inputs', '_discrete_outputs'):
             d = getattr(s, kind, None)
-            if d and not hasattr(s, '_subsystems_allprocs'):
+            if d:
                 for k in list(d):
                     key = '%s:%s.%s' % (kind[10:], s.pathname, k)
                     if key in snap:
